@@ -21,10 +21,31 @@ from units.common import *
 from units.c04 import (Ax, seq, fseq, ALL, SALL, FIRST, LAST, FIXLAST, ix, fix, encode, slice_sel, slice_cpp, slice_tag, slice_elems,
                        shape_tag, triples, ENCS, ENC2, chunked, ax1, vsweep, lead_axis, rand_axis, covering_pairs, sym_flat_index, INAMES)
 
-LEVEL_NOTE = ('per instantiation (destination shape and range tuple, operator, right-hand-side kind, type, ISA, std, '
-              'FASTOR_USE_VECTORISED_EXPR_ASSIGN on/off) the contract (selected == old op rhs, unselected == old, assigns only A) is '
-              'proved for all element values; destination ranges are enumerated as in C04 (exhaustive rank-1 triples up to extent 6/8, '
-              'rank-2 covering sets, V-straddling last-axis extents per ISA); write sequences only to depth 3')
+LEVEL_NOTE = ('per instantiation (destination shape and range tuple, operator, right-hand-side kind, type, destination kind owning Tensor / TensorMap, ISA, '
+              'std, FASTOR_USE_VECTORISED_EXPR_ASSIGN on/off) the contract (selected == old op rhs, unselected == old, assigns only A) is proved for all '
+              'element values; destination ranges are enumerated as in C04 (every rank-1 triple up to extent 4 quick / 8 thorough, rank-2 covering sets on 4x5, '
+              'last-axis extents V-1, V, V+1, 2V(+1) per ISA, ranks 1-3, mixtures of seq/fseq/all/int/first/last/fix); all five operators for int '
+              '(*= only by a literal, no /=: symbolic integer products are out of reach of SYM) and, for float/double, `=` in SYM and compound operators as '
+              'uninterpreted functions (UF on P0) for destinations of at most 24 (float) / 12 (double) arithmetic operations -- larger float destinations are '
+              'covered for `=` only, the addressing of the compound forms by the int cases of the same SIMD width; write sequences to depth 3.  '
+              'Known defect (families seq2ms-own / fseq2ms-own): A(seq,seq) op= slice of a rank-2 TensorMap reads the right-hand side with eval(row,col) although '
+              'the generic view means flat offset i+j.  Not covered because the API rejects them at compile time: tensor / expression right-hand sides on '
+              'dynamic slices of rank-1/2 TensorMaps, TensorMap slice = TensorMap slice; int unary minus as right-hand side is left to C02')
+
+def evidence_extra(tier):
+    t = tier == 'thorough'
+    return {'box': {
+        'isas': isas(tier), 'std': ['c++14', 'c++17'] if t else ['c++14'], 'types': ['int', 'float', 'double'],
+        'macros': ['(none)', VEA + ' (owning rank-1/2 destinations with step > 1)'],
+        'operators': {'int': ['=', '+=', '-=', '*= literal'], 'float/double': ['=', '+=', '-=', '*=', '/=']},
+        'rhs_kinds': ['scalar', 'literal', 'tensor (owning / TensorMap)', 'slice of another tensor (different range, equal extent)', 'slice of a TensorMap',
+                      '-B (float types)', 'B + C', 'B(slice) + C', 'trans(B) (needs evaluation)', 'trans(B) + C (needs evaluation)'],
+        'rank1_exhaustive_extent': 8 if t else 4, 'rank2_covering': '4x5',
+        'simd_sweep': 'last-axis destination extent in {V-1, V, V+1, 2V, 2V+1}, steps {1,2,3}, ranks 1-3',
+        'element_assignment': 'A(i,..) op v with symbolic indices in [-extent, extent-1], ranks 1-3(4)',
+        'histories': '2-3 writes to one tensor per entry (random ranges / operators / right-hand sides)',
+        'uf_budget': {'applications_per_case': UF_BUDGET, 'largest_single_write': UF_MAX_TARGET, 'double_weight': 2},
+        'dynamic_ranges': 'enumerated (bounded by the extents above), not symbolic'}}
 
 OPNAME = {'=': 'set', '+=': 'add', '-=': 'sub', '*=': 'mul', '/=': 'div'}
 VEA = 'FASTOR_USE_VECTORISED_EXPR_ASSIGN'
@@ -205,7 +226,7 @@ def rhs_for(rng, kind, ext, fixed=None):
     return (kind,)
 
 UF_BUDGET = 28      # uninterpreted float applications per case on the code side (the clause side doubles it; Ackermann is quadratic)
-UF_MAX_TARGET = 36  # a single float arithmetic write with more applications than this is not decidable in the time budget: left out
+UF_MAX_TARGET = 24  # a single float arithmetic write with more applications than this is not decidable in the time budget: left out
 MOVE_KINDS = ('scalar', 'lit', 'tensor', 'slice', 'mslice', 'neg', 'trans')
 
 def target_cost(ty, shape, w):
@@ -216,7 +237,24 @@ def target_cost(ty, shape, w):
     per = (0 if w.op == '=' else 1) + (1 if w.rhs[0] in ('add', 'addslice', 'transadd') else 0)
     return m * per * (2 if ty.bits == 64 else 1)        # 64-bit uninterpreted applications cost about twice as much
 
+EL_BUDGET = 260     # elements of the inout buffer per entry (keeps the DFCC-instrumented program inside its time budget)
+
+def split_by_size(groups):
+    out = []
+    for g in groups:
+        cur = []; n = 0
+        for t in g:
+            k = prod(t[0])
+            if cur and n + k > EL_BUDGET:
+                out.append(cur); cur = []; n = 0
+            cur.append(t); n += k
+        if cur: out.append(cur)
+    return out
+
 def split_targets(ty, targets):
+    return split_by_size(split_targets_by_mode(ty, targets))
+
+def split_targets_by_mode(ty, targets):
     """float: pure data movement (`=` of a movement right-hand side) stays SYM in its own entry; arithmetic targets are packed
     into UF entries below the budget.  int: one entry."""
     if ty.kind != 'float': return [targets]
@@ -334,22 +372,23 @@ def cases(tier, seed):
                     if kind == 'fseq' and N > 6: continue
                     tys = TYPES if (wide and N <= 6) else [TYPES[(N + ni) % 3]]
                 else:
-                    if N > (5 if kind == 'seq' else 3): continue
-                    tys = [TYPES[(N + ni + (kind == 'fseq')) % 3]]
+                    # quick: int for every N <= 4 (3 for fseq), one float type (rotating) for N <= 3 (2 for fseq)
+                    if N > (4 if kind == 'seq' else 3): continue
+                    tys = [INT] + ([TYPES[1 + (N + ni) % 2]] if N <= (3 if kind == 'seq' else 2) else [])
                 for ty in tys:
                     ti = TYPES.index(ty)
                     ts = triples(N)
-                    for dst in (DST if (dense and N in (4, 6)) or (N == 3 and kind == 'seq') else ['own']):
+                    for dst in (DST if (dense and N in (4, 6)) or (N == 3 and kind == 'seq' and ty is INT) else ['own']):
                         encs = ENCS if (wide and dst == 'own' and kind == 'seq' and ty is INT) else None
                         dests = []
                         for n, (f, l, st) in enumerate(ts):
                             for enc in (encs or [ENCS[(n + ti + N) % 3]]):
                                 dests.append((ax1(kind, f, l, st, N, enc),))
-                        out += multi_dest_cases('%s1-%s' % (kind, dst), ty, (N,), dests, dst, cfg, rng, RHS_1D, (5 if dense else 8) if kind == 'seq' else (3 if dense else 4), 'x', nkeep=1 if not wide else 2)
+                        out += multi_dest_cases('%s1-%s' % (kind, dst), ty, (N,), dests, dst, cfg, rng, RHS_1D, 5 if kind == 'seq' else 3, 'x', nkeep=1 if not wide else 2)
         for ti, ty in enumerate(TYPES):
             V = vec_elems(isa, ty)
             # ---------------- destinations whose last-axis extent straddles the SIMD width ----------------
-            es = sorted({V - 1, V, V + 1, 2 * V + 1} - {0}) if not dense else sorted({V - 1, V, V + 1, 2 * V, 2 * V + 1} - {0})
+            es = sorted(({V - 1, V, V + 1, 2 * V + 1} if ty.kind == 'int' else {V - 1, V, V + 1}) - {0}) if not dense else sorted({V - 1, V, V + 1, 2 * V, 2 * V + 1} - {0})
             sweep = vsweep(V, es=es, ss=(1, 2) if not dense else (1, 2, 3), fs=(0, 1), both=False, rot=ti)
             for n, (N, e, s, sl) in enumerate(sweep):
                 for ki, kind in enumerate(('seq', 'fseq')):
@@ -385,24 +424,26 @@ def cases(tier, seed):
             shape = (4, 5)
             allpairs = covering_pairs(shape[0], shape[1], rng)
             for ki, kind in enumerate(('seq', 'fseq')):
+                if not dense and (ti + ni + ki) % 3 == 2: continue        # quick: two of the three element types per ISA and vocabulary
                 if dense:
                     pairs = allpairs if (wide or ti == ni % 3) else sample(rng, allpairs, 18)
                     if kind == 'fseq': pairs = sample(rng, pairs, 24)
                 else:
-                    pairs = sample(rng, allpairs, (24 if ti == ni % 3 else 6) if kind == 'seq' else 6)
+                    pairs = sample(rng, allpairs, (12 if ti == ni % 3 else 4) if kind == 'seq' else 4)
                 for dst in DST:
-                    sel = pairs if dst == 'own' else sample(rng, pairs, 3 if not dense else 12)
+                    sel = pairs if dst == 'own' else sample(rng, pairs, 2 if not dense else 12)
                     dests = []
                     for n, (t0, t1) in enumerate(sel):
                         e0, e1 = ENC2[(n + ti) % len(ENC2)]
                         dests.append((ax1(kind, t0[0], t0[1], t0[2], shape[0], e0), ax1(kind, t1[0], t1[1], t1[2], shape[1], e1)))
                     out += multi_dest_cases('%s2-%s' % (kind, dst), ty, shape, dests, dst, cfg, rng, RHS_ALL, 3, 'c', nkeep=1 if not wide else 2)
                     if dst == 'own':
-                        strided = [d for d in dests if d[1].st > 1][:3 if not dense else 12]
+                        strided = [d for d in dests if d[1].st > 1][:2 if not dense else 12]
                         out += multi_dest_cases('%s2-%s' % (kind, dst), ty, shape, strided, dst, cfv, rng, RHS_ALL, 3, 'c', nkeep=1 if not wide else 2)
             # ---------------- mixed argument kinds (rank 2 overloads, rank 3/4 generic views) ----------------
             for shape in ([(4, 5), (2, 3, 4)] if not dense else [(4, 5), (2, 3, 4), (2, 2, 3, 3)]):
-                for dst in DST:
+                for di, dst in enumerate(DST):
+                    if not dense and (di + ti + ni + len(shape)) % 2: continue
                     k = 1 if not dense else 8
                     for q in range(k):
                         w = random_write(rng, ty, shape, dst, ['seq', 'fseq', 'all', 'int', 'last', 'first', 'fix', 'fixlast'])
@@ -412,6 +453,7 @@ def cases(tier, seed):
             # reads eval(i,j) as flat offset i+j: known defect, kept in families of its own (*2ms-own); ranks 1 and 3 are unaffected
             if ty.kind == 'int' or dense or ti == 1 + ni % 2:
                 for ki, kind in enumerate(('seq', 'fseq')):
+                    if not dense and (ki + ti + ni) % 2: continue
                     fixed = kind == 'fseq'
                     e = min(V + 1, 5)
                     d1 = (ax1(kind, 1, 1 + 2 * e - 1, 2, 2 * e + 1, 'nl'),)
